@@ -18,6 +18,8 @@
  *                                   find_uv, fixed_degree_isogeny, represent_integer,
  *                                   represent_integer_non_diag
  *     each firing prints "verif-h2: fired <site> call <n>" on stderr.
+ * H3s signer trace:
+ *       SQI_VERIF_TRACE=1      print "verif-trace: <tag> <ints>" (table rows, loop counts) on stderr
  * H2b basis hints:
  *       SQI_VERIF_HINT20=1     ec_curve_to_point_2f_{not_,}above_montgomery start at hint 20
  *                              (as if the 20 table candidates had failed)
@@ -104,6 +106,15 @@ verif_h2_fail(const char *site)
         return 1;
     }
     return 0;
+}
+
+/* H3s signer trace: with SQI_VERIF_TRACE=1 the integers that select table rows / loop counts are
+   printed on stderr as "verif-trace: <tag> <ints...>" */
+static inline void
+verif_trace(const char *tag, int a, int b, int c, int d, int e)
+{
+    if (verif_env_int("SQI_VERIF_TRACE", 0))
+        fprintf(stderr, "verif-trace: %s %d %d %d %d %d\n", tag, a, b, c, d, e);
 }
 
 static inline int
